@@ -165,6 +165,11 @@ def run(case):
         j = int(np.argmin(np.minimum(np.abs(lam - lam_true), np.abs(lam - np.conj(lam_true)))))
         T_est, tau_est = abs(Tper[j]), tau[j]
         checks += 1
-        if abs(T_est - T_true) > 1e-6 * T_true or abs(tau_est - (-1 / np.log(r_true))) > 1e-5 * abs(1 / np.log(r_true)):
+        # recovering a weak, decaying oscillation next to a strong one (and, without centring, next to the constant offset) is as
+        # well conditioned as the lag-0 Gram matrix the feedback matrix is solved with
+        X2 = np.asarray(m.data["input_data"].values, dtype=float)
+        condG = float(np.linalg.cond(X2[:-1].T @ X2[:-1]))
+        tolT = max(1e-6, 1e-12 * condG)
+        if abs(T_est - T_true) > tolT * T_true or abs(tau_est - (-1 / np.log(r_true))) > 10 * tolT * abs(1 / np.log(r_true)):
             F.append(Finding("oracle", "noise_free_recovery", cc, f"recovered period {T_est:.8g} / damping {tau_est:.8g}, true {T_true:.8g} / {-1/np.log(r_true):.8g} (amplitude ratio {case['amp_ratio']:.1e})"))
     return {"findings": F, "info": {"oracle_checks": {"n": checks}, "dist": {"kind": kind, "pca": use_pca, "center": center, "k": k}}}
